@@ -105,6 +105,9 @@ class KernelMonitor:
         from pv.ref import c26_ref as R
         qp, ctx = self.qp, self.ctx
         name = type(op).__name__
+        if name == "ParametrizedEvolution":  # ODE solver (atol 1.4e-8): checked by dq.evolution with its own stated tolerance
+            ctx.count("kernel.skipped_ode")
+            return
         if name in ("Conditional", "MidMeasure", "MidMeasureMP") or qp.math.is_abstract(state) or qp.math.is_abstract(out):
             ctx.count("kernel.skipped_abstract_or_dynamic")
             return
@@ -153,7 +156,10 @@ class KernelMonitor:
     def kernel_mech(self, op, tag, name, pre_bs=None, bo=None):
         if bo is not None and pre_bs is None:
             return "batch-size-none:symbolic-op"  # operator with broadcast data reported batch_size None to the simulator
-        if name == "Prod":
+        inner = op
+        while type(inner).__name__ != "Prod" and getattr(inner, "base", None) is not None:
+            inner = inner.base
+        if type(inner).__name__ == "Prod":
             from pv.ref import c26_ref as R
             try:
                 Mr = R.op_matrix(op)[0]
